@@ -63,6 +63,7 @@ class Unit:
         self.functions_under_contract = []
         self.text = ""
         self.props = []
+        self.skipped = {}  # obligation -> reason (lost anchor / unsupported construct in that function only)
 
     def add(self, chunk):
         self.chunks.append(chunk)
@@ -121,7 +122,13 @@ def build_unit(sidecar_path, sources, variant=None):
         if variant is not None and f.get("only_variant") not in (None, variant):
             continue
         src = sources(f.get("source", default_src))
-        ex = extract_fn(src, f, rules)
+        try:
+            ex = extract_fn(src, f, rules)
+        except Undecided as e:
+            # isolate: this obligation is undecided; the rest of the unit is still built (if something
+            # else needs the missing function, Verus rejects the unit and everything is undecided as before)
+            u.skipped[f"{u.name}/{f.get('ob', f.get('as_free') or f['path'].split('::')[-1])}"] = f"{e.reason}: {e.detail}"
+            continue
         for k, v in ex["counts"].items():
             u.counts[k] = u.counts.get(k, 0) + v
         item = ex["item"]
@@ -168,7 +175,11 @@ def build_unit(sidecar_path, sources, variant=None):
     # R31 closure conversion
     for a in sc.get("closure_fn", []):
         src = sources(a.get("source", default_src))
-        ex = extract_closure(src, a, rules)
+        try:
+            ex = extract_closure(src, a, rules)
+        except Undecided as e:
+            u.skipped[f"{u.name}/{a.get('ob', a['name'])}"] = f"{e.reason}: {e.detail}"
+            continue
         for k, v in ex["counts"].items():
             u.counts[k] = u.counts.get(k, 0) + v
         ob = f"{u.name}/{a.get('ob', a['name'])}"
@@ -185,7 +196,11 @@ def build_unit(sidecar_path, sources, variant=None):
     # R16 arm extraction
     for a in sc.get("arm", []):
         src = sources(a.get("source", default_src))
-        ex = extract_arm(src, a, rules)
+        try:
+            ex = extract_arm(src, a, rules)
+        except Undecided as e:
+            u.skipped[f"{u.name}/{a.get('ob', a['name'])}"] = f"{e.reason}: {e.detail}"
+            continue
         for k, v in ex["counts"].items():
             u.counts[k] = u.counts.get(k, 0) + v
         ob = f"{u.name}/{a.get('ob', a['name'])}"
